@@ -11,6 +11,20 @@ hist   : every rename / replace / append history of length <= 2 on every base ta
          sub-alphabet; operations: t.rename_column, rename through a live column view
          (c = t['a']; c.name = 'z'), t.<accessor> = values, t >> named vector.
 
+wide   : tables of 11 / 12 / 13 columns (more than repr displays) with a same-accessor group (plain repeat, 'Unit Price' /
+         'unit_price' / 'UNIT  PRICE' twins, unnamed column + 'colN_' look-alikes, method-name twins) at every pair of positions
+         where one member is in the elided middle, and every triple whose FIRST member is elided; all-unnamed, all-same
+         and alternating-twin tables.  The dot row must show, for each displayed column, the accessor of its own position.
+rc-1st : rename_column applied to each column of tables with several same-accessor columns (['unit price', 'unit price',
+         'qty'], twins, triples, method names, digit prefixes) to 5 new names (fresh, None, same accessor again, another
+         column's name), alone and followed by one more rename / append / view rename / replacement.
+byname : every name list of width 2 (9-name alphabet) and 3 (8 names; thorough: 9, and width 4 over 6) over
+         {'Region', 'region', 'Unit Price', 'unit_price', 'a', 'a__1', 'col1_', None, 'x'}: for every stored name,
+         t[name], t[(name, other)], t[rows, name], t[rows, (name,)], sort_by(name), join / inner_join / full_join with the
+         name as left or right key, aggregate / window over=name must all use the FIRST column whose stored name equals
+         the key (columns carry distinct values and distinct sort orders, so the column used is identifiable).
+         (t[<int row>, name] goes through Row attribute lookup, i.e. the accessor, like item assignment: not failed.)
+
 Oracle (from the statement only): a plain list of stored names is the model; the advertised
 accessor set is whatever dir(t) adds over dir(Table()); it has to be a set of distinct valid
 identifiers, none of them a public Vector/Table attribute, exactly one per column, each resolving
@@ -337,6 +351,20 @@ def check(make, label):
             toks = ln.split()
             if toks and all(tk.startswith('.') and len(tk) > 1 for tk in toks):
                 want = ['.' + by_pos[i] for i in range(ncols)]
+                if '...' in toks and len(toks) <= ncols:
+                    # wide table: the middle columns are elided; every DISPLAYED column (the ones before the ellipsis are the
+                    # first columns, the ones after it the last columns) must carry the accessor of its own position
+                    k = toks.index('...')
+                    tail = len(toks) - k - 1
+                    shown = list(range(k)) + list(range(ncols - tail, ncols))
+                    want_w = ['.' + by_pos[i] for i in shown[:k]] + ['...'] + ['.' + by_pos[i] for i in shown[k:]]
+                    if toks != want_w:
+                        bad = [shown[q - (1 if q > k else 0)] for q in range(len(toks)) if q != k and toks[q] != want_w[q]]
+                        hidden_first = any(bases[i] is not None and bases.index(bases[i]) not in shown for i in bad)
+                        sub = ':wide:first-occurrence-elided' if hidden_first else ':wide'
+                        F('C17:repr-dot-row:mismatch' + sub, f'dot row {toks} of the {ncols}-column table differs from the accessors '
+                          f'{want_w} that dir()/getattr resolve to the displayed columns', want_w, toks)
+                    break
                 if toks != want:
                     bad = [i for i in range(min(len(toks), ncols)) if toks[i] != want[i]]
                     sub = ':non-str-name' if len(toks) == ncols and all(not isinstance(model[i], str) and model[i] is not None for i in bad) else ''
@@ -365,7 +393,212 @@ def ops_for(width, new_names):
     return out
 
 
+# ---------------------------------------------------------------------------------------------
+# wide tables: more columns than repr displays; same-accessor groups whose first member is elided
+# ---------------------------------------------------------------------------------------------
+WIDE_WIDTHS = [11, 12, 13]
+WIDE_GROUPS = [['a', 'a', 'a'], ['Unit Price', 'unit_price', 'UNIT  PRICE'], ['unit_price', 'Unit Price', 'unit price'],
+               [None, 'col<i>_', 'col<i>'], ['sum', 'SUM', 'Sum']]
+
+
+def wide_names(width, group, positions):
+    """Filler names f0.. (column 0 needs sanitising, so the dot row is always printed) with group[k] at positions[k]."""
+    names = ['x y' if j == 0 else f'f{j}' for j in range(width)]
+    for k, p_ in enumerate(positions):
+        g = group[k]
+        names[p_] = g.replace('<i>', str(positions[0])) if isinstance(g, str) else g
+    return names
+
+
+def wide_cases(tier):
+    for width in WIDE_WIDTHS:
+        hidden = list(range(5, width - 5))
+        for gi, group in enumerate(WIDE_GROUPS):
+            # pairs: first occurrence hidden, second anywhere after it; first visible, second hidden
+            for i in range(1, width):
+                for j in range(i + 1, width):
+                    if i in hidden or j in hidden:
+                        yield {'op': 'static', 'names': lit(wide_names(width, group, [i, j]))}
+            # triples whose first occurrence is hidden (quick: plain repeated name only)
+            if gi == 0 or tier != 'quick':
+                for i in hidden:
+                    for j in range(i + 1, width):
+                        for k in range(j + 1, width):
+                            yield {'op': 'static', 'names': lit(wide_names(width, group, [i, j, k]))}
+        # every column unnamed / every column the same name / alternating twins
+        yield {'op': 'static', 'names': lit([None] * width)}
+        yield {'op': 'static', 'names': lit(['x y'] + ['a'] * (width - 1))}
+        yield {'op': 'static', 'names': lit(['x y'] + [['Region', 'region'][j % 2] for j in range(width - 1)])}
+
+
+# ---------------------------------------------------------------------------------------------
+# rename_column on the FIRST of several columns sharing an accessor, then anything else
+# ---------------------------------------------------------------------------------------------
+RC_BASES = [['unit price', 'unit price', 'qty'], ['Unit Price', 'unit_price', 'qty'], ['qty', 'unit price', 'unit price'],
+            ['unit price', 'qty', 'unit price'], ['a', 'a', 'a'], ['unit price', 'unit price', 'unit price', 'qty'], ['A b', 'a_b'],
+            ['sum', 'Sum', 'x'], ['1a', 'c1a']]
+RC_NEW = ['list price', 'z', None, 'UNIT PRICE', 'qty']
+
+
+def rename_first_cases(tier):
+    for base in RC_BASES:
+        w = len(base)
+        for i in range(w):
+            for new in RC_NEW:
+                h1 = ['rc', i, new]
+                yield {'op': 'hist', 'names': lit(base), 'hist': lit([h1])}
+                seconds = [['rc', j, 'w'] for j in range(w)] + [['ap', base[0]], ['ap', 'w'], ['vw', w - 1, base[0]], ['rp', 0], ['rp', w - 1]]
+                if tier != 'quick':
+                    seconds += [['rc', j, nn] for j in range(w) for nn in RC_NEW] + [['vw', j, 'w'] for j in range(w)]
+                for h2 in seconds:
+                    yield {'op': 'hist', 'names': lit(base), 'hist': lit([h1, h2])}
+
+
+# ---------------------------------------------------------------------------------------------
+# t[name] and everything built on it, where the key is one column's STORED name and another column's ACCESSOR
+# ---------------------------------------------------------------------------------------------
+BYNAME_ALPHABET = ['Region', 'region', 'Unit Price', 'unit_price', 'a', 'a__1', 'col1_', None, 'x']
+PERMS = [[2, 1, 3], [3, 1, 2], [1, 3, 2], [2, 3, 1]]          # column j holds 10*j + PERMS[j]: distinct sort orders, none sorted
+
+
+def byname_table(names):
+    return Table([Vector([10 * j + p_ for p_ in PERMS[j]], name=n) for j, n in enumerate(names)])
+
+
+def byname_cases(tier):
+    q = tier == 'quick'
+    for w in (2, 3) if q else (2, 3, 4):
+        alpha = BYNAME_ALPHABET if (w == 2 or (w == 3 and not q)) else (BYNAME_ALPHABET[:-1] if w == 3 else
+                                                                       ['Region', 'region', 'a', 'a__1', None, 'col1_'])
+        for combo in itertools.product(alpha, repeat=w):
+            if any(isinstance(n, str) for n in combo):
+                # quick: left join only (all three join flavours resolve their keys through the same routine)
+                yield dict({'op': 'byname', 'names': lit(list(combo))}, **({'tier': 'quick'} if q else {}))
+
+
+def eval_byname(case):
+    names = ev(case['names'])
+    label = f'names {case["names"]}'
+    fails, seen = [], set()
+
+    def F(key, what, exp=None, obs=None):
+        if key not in seen:
+            seen.add(key)
+            fails.append(Fail(key, f'{label}: {what}', exp, obs))
+
+    try:
+        byname_table(names)
+    except Exception as e:
+        return [Fail('C17:Table:construct-raises', f'Table of columns named {case["names"]} raised {type(e).__name__}: {e}')]
+    data = [[10 * j + p_ for p_ in PERMS[j]] for j in range(len(names))]
+    first = {}
+    for i, n in enumerate(names):
+        if isinstance(n, str) and n not in first:
+            first[n] = i
+    # does any key name another column's accessor?  (only used for the nontrivial signature; every key is checked)
+    quick = case.get('tier') == 'quick'
+    for s_, i in first.items():
+        col_i = data[i]
+        # (1) plain string indexing (one table serves all the reads for this key: none of them writes)
+        t = byname_table(names)
+        try:
+            c = t[s_]
+            idx = [j for j, x in enumerate(t.cols()) if x is c]
+            if idx != [i]:
+                F('C17:getitem-name:not-first-occurrence', f't[{s_!r}] resolves to column {idx}, the first column whose stored name is '
+                  f'{s_!r} is {i}', i, idx)
+        except Exception as e:
+            F('C17:getitem-name:raises', f't[{s_!r}] raises {type(e).__name__}: {e}', i, type(e).__name__)
+        # (2) tuple selection, alone and paired with every other stored name (both orders)
+        for s2, i2 in first.items():
+            for key in ([(s_,)] if s2 == s_ else []) + [(s_, s2)]:
+                try:
+                    r = t[key]
+                    got = [list(x) for x in r.cols()]
+                    want = [data[first[k_]] for k_ in key]
+                    m = truthful(r)
+                    if m:
+                        F('C03:Table.getitem:name-tuple:truthful', m)
+                    if got != want:
+                        F('C17:getitem-name-tuple:not-first-occurrence', f't[{key!r}] selects columns holding {got}; the first columns '
+                          f'stored under these names hold {want}', want, got)
+                    elif list(r.column_names()) != list(key):
+                        F('C17:getitem-name-tuple:stored-name-altered', f't[{key!r}].column_names() = {r.column_names()!r}', list(key), r.column_names())
+                except Exception as e:
+                    F('C17:getitem-name-tuple:raises', f't[{key!r}] raises {type(e).__name__}: {e}', None, type(e).__name__)
+        # (3) rows x name
+        for rtxt, rs, pick in ((('0:2', slice(0, 2), lambda xs: xs[0:2]), ('::-1', slice(None, None, -1), lambda xs: xs[::-1])) if quick else
+                               (('0:2', slice(0, 2), lambda xs: xs[0:2]), (':', slice(None), lambda xs: xs[:]),
+                                ('::-1', slice(None, None, -1), lambda xs: xs[::-1]))):
+            try:
+                r = t[rs, s_]
+                if not isinstance(r, Vector) or list(r) != pick(col_i):
+                    F('C17:getitem-rows-name:not-first-occurrence', f't[{rtxt}, {s_!r}] gives {list(r) if isinstance(r, Vector) else r!r}; '
+                      f'column {i} (first stored {s_!r}) holds {pick(col_i)} there', pick(col_i), list(r) if isinstance(r, Vector) else r)
+            except Exception as e:
+                F('C17:getitem-rows-name:raises', f't[{rtxt}, {s_!r}] raises {type(e).__name__}: {e}', None, type(e).__name__)
+            try:
+                r = t[rs, (s_,)]
+                got = [list(x) for x in r.cols()]
+                if got != [pick(col_i)]:
+                    F('C17:getitem-rows-name-tuple:not-first-occurrence', f't[{rtxt}, ({s_!r},)] gives {got}', [pick(col_i)], got)
+            except Exception as e:
+                F('C17:getitem-rows-name-tuple:raises', f't[{rtxt}, ({s_!r},)] raises {type(e).__name__}: {e}', None, type(e).__name__)
+        # (4) sort_by by name: every column has its own sort order
+        order = sorted(range(3), key=lambda r_: col_i[r_])
+        for rev in (False, True):
+            try:
+                r = t.sort_by(s_, reverse=rev)
+                got = [list(x) for x in r.cols()]
+                od = order[::-1] if rev else order
+                want = [[d[r_] for r_ in od] for d in data]
+                if got != want:
+                    used = [j for j, d in enumerate(data) if got == [[dd[r_] for r_ in (sorted(range(3), key=lambda q: d[q])[::-1] if rev else
+                                                                                         sorted(range(3), key=lambda q: d[q]))] for dd in data]]
+                    F('C17:sort_by-name:not-first-occurrence', f't.sort_by({s_!r}, reverse={rev}) ordered the rows by column {used or "?"}; '
+                      f'the first column stored as {s_!r} is {i}', want, got)
+            except Exception as e:
+                F('C17:sort_by-name:raises', f't.sort_by({s_!r}) raises {type(e).__name__}: {e}', None, type(e).__name__)
+        # (5) join keys by name: the other table's key holds exactly column i's values, so only column i matches
+        u = Table([Vector(list(col_i), name='key'), Vector([100, 200, 300], name='payload')])
+        for meth in (('join',) if quick else ('join', 'inner_join', 'full_join')):
+            try:
+                r = getattr(t, meth)(u, left_on=s_, right_on='key', expect='one_to_one')
+                pay = list(r.cols()[-1]) if len(r.cols()) == len(names) + 2 else None
+                if len(r) != 3 or pay != [100, 200, 300]:
+                    F('C17:join-key-name:left:not-first-occurrence', f't.{meth}(u, left_on={s_!r}, right_on="key") where u.key holds column '
+                      f'{i}\'s values {col_i}: {len(r)} rows, payload {pay}', [100, 200, 300], pay)
+            except Exception as e:
+                F('C17:join-key-name:left:raises', f't.{meth}(u, left_on={s_!r}, ...) raises {type(e).__name__}: {e}', None, type(e).__name__)
+            try:
+                r = getattr(u, meth)(t, left_on='key', right_on=s_, expect='one_to_one')
+                got = [list(x) for x in r.cols()[2:]]
+                if len(r) != 3 or got != data:
+                    F('C17:join-key-name:right:not-first-occurrence', f'u.{meth}(t, left_on="key", right_on={s_!r}) where u.key holds column '
+                      f'{i}\'s values: {len(r)} rows, right columns {got}', data, got)
+            except Exception as e:
+                F('C17:join-key-name:right:raises', f'u.{meth}(t, right_on={s_!r}) raises {type(e).__name__}: {e}', None, type(e).__name__)
+        # (6) partition key by name (aggregate / window resolve names the same way)
+        for meth in ('aggregate', 'window'):
+            try:
+                r = getattr(t, meth)(over=s_, count_over=s_)
+                got = list(r.cols()[0])
+                if got != col_i:
+                    F(f'C17:{meth}-over-name:not-first-occurrence', f't.{meth}(over={s_!r}) groups by values {got}; column {i} holds {col_i}',
+                      col_i, got)
+            except Exception as e:
+                F(f'C17:{meth}-over-name:raises', f't.{meth}(over={s_!r}) raises {type(e).__name__}: {e}', None, type(e).__name__)
+    return fails
+
+
 def cases(tier, seed):
+    yield from _cases_v1(tier, seed)
+    yield from wide_cases(tier)
+    yield from rename_first_cases(tier)
+    yield from byname_cases(tier)
+
+
+def _cases_v1(tier, seed):
     wmax = 3 if tier == 'quick' else 4
     for w in range(0, wmax + 1):
         for combo in itertools.product(ALPHABET, repeat=w):
@@ -383,6 +616,8 @@ def cases(tier, seed):
 
 def evaluate(case):
     names = ev(case['names'])
+    if case['op'] == 'byname':
+        return eval_byname(case)
     if case['op'] == 'static':
         try:
             build(names)
@@ -434,6 +669,16 @@ def nontrivial(case):
         else:
             sig.append('plain')
     h = tuple(o[0] for o in ev(case['hist'])) if case['op'] == 'hist' else ()
+    if case['op'] == 'byname':
+        # a key that is one column's stored name and another column's accessor (twin / generated look-alike)
+        accs = accessors_of(names, [])
+        clash = any(isinstance(n, str) and accs and any(a == n.lower() and accs.index(a) != i for a in accs if a)
+                    for i, n in enumerate(names))
+        return ('byname', tuple(sig), clash)
+    if len(names) > 10:
+        b0 = [b for b in bases if b is not None and bases.count(b) > 1]
+        firsts = sorted({bases.index(b) for b in b0})
+        return ('wide', len(names), tuple('hidden' if 5 <= f < len(names) - 5 else 'shown' for f in firsts), tuple(sorted(set(sig))))
     if not h and set(sig) <= {'plain'}:
         return None
     return (tuple(sig), h)
@@ -444,9 +689,14 @@ if __name__ == '__main__':
          rule='all column-name lists up to the stated width over an 18-name pathological alphabet; all rename_column / '
               'view-rename / attribute-replacement / >>-append histories of length <= 2 on all base tables over a sub-alphabet; '
               'each observation channel (dir, getattr, dir-then-getattr, row attribute, item-assignment key, t[stored], repr dot '
-              'row, column_names) on a fresh replica; distinct = (per-column sanitisation class pattern, op kinds)',
+              'row, column_names) on a fresh replica; 11-13 column tables with same-accessor groups around the elided middle of '
+              'repr; rename_column on each member of same-accessor groups (+ one more operation); string indexing / tuple '
+              'selection / rows x name / sort_by / join keys / partition keys by stored names that are other columns\' accessors; '
+              'distinct = (per-column sanitisation class pattern, op kinds)',
          bound=lambda tier: {'static_width': 3 if tier == 'quick' else 4, 'alphabet': len(ALPHABET),
                              'hist_base_width': 2, 'hist_len': 2,
                              'hist_alphabet': len(HIST_BASE['quick' if tier == 'quick' else 'thorough']),
-                             'new_names': len(HIST_NEW['quick' if tier == 'quick' else 'thorough'])},
+                             'new_names': len(HIST_NEW['quick' if tier == 'quick' else 'thorough']),
+                             'wide_widths': WIDE_WIDTHS, 'wide_groups': len(WIDE_GROUPS), 'rename_first_bases': len(RC_BASES),
+                             'byname_alphabet': len(BYNAME_ALPHABET), 'byname_width': 3 if tier == 'quick' else 4},
          nontrivial=nontrivial)
